@@ -74,6 +74,34 @@ long first_bad_buf(const uint8_t *p, size_t n, uint64_t tag) {
     return -1;
 }
 
+// the library's own membership predicate (the way a consumer serving several rings routes a buffer back): memory that is not inside
+// this ring's storage - directly behind it, directly in front of it, straddling either end, or a span longer than the ring - is foreign
+void check_foreign(Ctx &c) {
+    struct Probe { ptrdiff_t off; size_t cap; const char *what; } probes[] = {
+        {(ptrdiff_t)c.ring_size, 1, "starting exactly at the end of the storage"},
+        {(ptrdiff_t)c.ring_size, 0, nullptr}, // empty span at the end: either answer is defensible, not asserted
+        {-1, 1, "one byte in front of the storage"},
+        {-1, 2, "straddling the start of the storage"},
+        {(ptrdiff_t)c.ring_size - 1, 2, "straddling the end of the storage"},
+        {0, c.ring_size + 1, "longer than the ring"},
+        {(ptrdiff_t)c.ring_size + 64, 8, "behind the storage"},
+    };
+    for (const Probe &pr : probes) {
+        if (!pr.what) continue;
+        struct aws_byte_buf f;
+        AWS_ZERO_STRUCT(f);
+        f.buffer = c.ring.allocation + pr.off; // never dereferenced
+        f.capacity = pr.cap;
+        if (aws_ring_buffer_buf_belongs_to_pool(&c.ring, &f))
+            sim::violation("c15:belongs", "aws_ring_buffer_buf_belongs_to_pool is true for foreign memory %s (offset %td, %zu bytes, ring of %zu)", pr.what, pr.off, pr.cap, c.ring_size);
+    }
+    struct aws_byte_buf whole;
+    AWS_ZERO_STRUCT(whole);
+    whole.buffer = c.ring.allocation;
+    whole.capacity = c.ring_size;
+    if (!aws_ring_buffer_buf_belongs_to_pool(&c.ring, &whole)) sim::violation("c15:belongs", "aws_ring_buffer_buf_belongs_to_pool is false for the span of the whole storage");
+}
+
 void do_acquire(Ctx &c, const sim::Op &op) {
     size_t n = (size_t)op.a, mn = (size_t)op.b;
     bool upto = op.kind == OP_ACQ_UPTO;
@@ -91,6 +119,8 @@ void do_acquire(Ctx &c, const sim::Op &op) {
     c.ops_done++;
     if (rc == AWS_OP_SUCCESS) {
         if (upto) check_buf(c, dest, mn, n, "acquire_up_to"); else check_buf(c, dest, n, n, "acquire");
+        if (!aws_ring_buffer_buf_belongs_to_pool(&c.ring, &dest)) sim::violation("c15:belongs", "aws_ring_buffer_buf_belongs_to_pool is false for a buffer the ring has just handed out");
+        check_foreign(c);
         Entry e;
         e.buf = dest; e.ptr = dest.buffer; e.off = (size_t)(dest.buffer - c.ring.allocation); e.cap = dest.capacity; e.state = 0;
         e.tag = 0xC15000 + c.entries.size();
